@@ -440,7 +440,7 @@ func init() {
 	vfRegister("C19", &vfCheck{
 		run: func(r *vfRun) {
 			if _, ok := r.nextCase(); ok {
-				vfExplore(r, vfBatchCfg(r.thorough))
+				vfExplore(r, vfBatchCfg(r.thorough, "c19batch"))
 			}
 			vfRunGWScenarios(r, vfC19Scenarios(r.thorough), vfC19Mk)
 		},
@@ -452,7 +452,7 @@ func init() {
 			}
 			json.Unmarshal(raw, &c)
 			if c.Scenario.Part == "batch" {
-				vfReplayCase(r, vfBatchCfg(true), raw)
+				vfReplayCase(r, vfBatchCfg(true, "c19batch"), raw)
 				return
 			}
 			vfReplayGWScenario(r, raw, vfC19Mk)
